@@ -312,7 +312,7 @@ func collectValues(vs []ssa.Value, out map[ssa.Value]bool, d int) {
 
 // C07 — encrypted output is well-formed CENC (narrow structural clauses).
 func checkC07(c *Ctx, r *Report) {
-	r.Explanation = "Narrow clauses: (S-CLONE) GetAVCProtectRanges and GetHEVCProtectRanges are the same function modulo the avc/hevc package (normalised AST comparison: comments, error texts and local names ignored); " +
+	r.Explanation = "T-PATTERN: among the tenc boxes InitProtect builds there is a version-1 (cbcs) box with a crypt:skip pattern (video) and a version-1 box with crypt_byte_block zero (audio is protected whole); Narrow clauses: (S-CLONE) GetAVCProtectRanges and GetHEVCProtectRanges are the same function modulo the avc/hevc package (normalised AST comparison: comments, error texts and local names ignored); " +
 		"(WHO) on the encrypt path SubSamplePattern values are constructed only inside AppendProtectRange, which keeps the 65535-byte clear-run split in one place; " +
 		"(O-USED) senc/saiz record exactly the iv and pattern the crypt call used, the cenc iv is advanced after each sample and the cbcs iv never; (L-SIBLING) in the slice-header parsers that feed the cbcs clear/protected boundary no loop fills one of two twin lists (weights L0/L1, delta POCs S0/S1) while deciding with the other; (O-FRESHIV) in cbcs every protected range is coded with a block mode created from the IV for that range (in the function coding one range, or by its caller inside the same loop iteration); (DEP) the saio offset is accumulated over the boxes that precede the senc data. " +
 		"NOT decided, stated plainly: that protected bytes equal an independent AES-CTR / AES-CBC implementation, the 16-byte block and 1:9 pattern arithmetic, exactness of the partition, IV carry arithmetic."
@@ -320,6 +320,7 @@ func checkC07(c *Ctx, r *Report) {
 	ruleWhoConstructs(c, r)
 	ruleStoredIsUsed(c, r)
 	ruleSaioOffset(c, r)
+	ruleCbcsPatterns(c, r)
 	if n := ruleCursorSkip(c, r); n < 2 {
 		r.Undecided("L-CURSORSKIP", "scope", "", "the byte cursors of CryptSampleCenc / cryptSampleCbcs were not found")
 	}
